@@ -7,7 +7,7 @@ ROOT = os.path.dirname(os.path.dirname(os.path.abspath(__file__)))
 TECH = ("bounded model checking of the compiled Rust code: Kani 0.68 -> CBMC 6.11 -> SAT (cadical); symbolic inputs "
         "via kani::any(), unwinding assertions on, counterexamples replayed natively with cargo kani playback")
 
-TECH2 = TECH + "; for C13 and C02 additionally path-forking symbolic execution of rustc's MIR with z3 (mirsym)"
+TECH2 = TECH + "; for C01, C02, C03, C05, C12, C13 additionally path-forking symbolic execution of rustc's MIR with z3 (mirsym)"
 
 CLAIMED = {
     # id: (level text, level_note, design_ref)
@@ -19,7 +19,9 @@ CLAIMED = {
         "ConsumesRemaining, NaivePatternGroup) and leaf pattern obeys matches() <= tokens.len() for arbitrary contract-obeying children "
         "(assume-guarantee, so any nesting depth) on 0..=3 tokens; run_on_chunk neither panics nor loops; jsdoc::parse_inline_tag "
         "terminates and stays in bounds; without_initiators cannot reach Span::new's panic; edit_distance cannot overflow. Panics, "
-        "overflow, out-of-bounds and unwinding assertions are all checked by the solver; hangs are confirmed natively.",
+        "overflow, out-of-bounds and unwinding assertions are all checked by the solver; hangs are confirmed natively. mirsym "
+        "(MIR symbolic execution): lex_hex_number on '0x' + 1, 8, 16, 17 (18, 24) symbolic hex digits cannot panic at the u64 "
+        "boundary of from_str_radix.",
         "Kernels only. Outside the claim: Markdown/HTML/Typst/Literate-Haskell/tree-sitter front-ends, Document::parse and its "
         "condensing passes (Kani ICE on thread_local / memory), dictionary-dependent rules, lex_number's f64 parsing, "
         "mark_inline_tags and PatternMap (Kani limitations, DESIGN.md). Unicode table look-ups are replaced by nondeterministic stubs "
@@ -49,11 +51,26 @@ CLAIMED = {
         "characters symbolic), including the equal-length in-place path, empty spans and spans touching either end; "
         "replace_with_match_case keeps length and letters; the Span algebra used to rebase cached lints (pull_by/push_by/pulled_by/"
         "pushed_by/with_offset, overlaps_with, contains, with_len, try_get_content) is decided over full-width usize; "
-        "TokenStringExt::span is the tight in-bounds hull of its tokens.",
-        "Edit primitive and span plumbing only. 'Each reported lint's span lies in the text' is NOT decided for the ~290 rules nor "
-        "for LintGroup::lint (hash-keyed LRU cache, RandomState: not encodable) - a cache-rebasing defect inside LintGroup::lint is "
-        "outside what this check can see.",
+        "TokenStringExt::span is the tight in-bounds hull of its tokens. mirsym: the span rebasing of LintGroup::lint's clause cache "
+        "(see C05) - cached lints land on the right characters when a clause recurs at another offset.",
+        "Edit primitive, span plumbing and the cache rebasing of LintGroup::lint (with stub rules). 'Each reported lint's span lies in "
+        "the text' is NOT decided for the ~290 real rules.",
         "DESIGN.md section 4, C03"),
+    "C05": (
+        "Kernel of the property's central mechanism, decided by MIR symbolic execution (mirsym, z3): the real "
+        "<LintGroup as Linter>::lint - clause iteration, TokenStringExt::span, Document::get_span_content, the cache key, "
+        "Span::pull_by on a miss, clone + Span::push_by on a hit, the is_rule_enabled gate - is executed on a LintGroup holding two "
+        "stub pattern rules, an association-list model of the LRU cache and a configuration-determined hash, for (a) one call on every "
+        "document of 3-4 (5) one-char tokens under all four rule configurations and (b) two successive calls on different documents "
+        "of 2+3 (3+3) tokens with a rule toggled in between. On every path the lints of each call equal, in order and span, what the "
+        "enabled rules produce on that document from scratch - whatever was linted before.",
+        "Only the clause cache and rule gate of LintGroup::lint. Not covered: SpellCheck's word cache, thread-local pattern caches, "
+        "lazy statics, threads/processes, harper-ls and harper-wasm reuse of a linter; LRU eviction is not modelled; documents are "
+        "restricted to one-char tokens whose kind is a function of the character, so that everything a rule may see is a function "
+        "of the clause text (the premise the cache relies on - a rule that looked at absolute token indices, e.g. quote twins, "
+        "would violate it and is outside this kernel). Counterexamples are replayed natively with real PatternLinter "
+        "implementations through LintGroup's public API (long-lived vs fresh linter).",
+        "DESIGN.md section 4, C05"),
     "C08": (
         "The real harper-ls/src/pos_conv.rs (compiled into the harness crate) is decided for every text of <= 3 (4-5) chars over "
         "{LF, CR, a, U+1F600, TAB, e-acute} and every span: span_to_range equals an independent LSP reference (line = LFs before, "
@@ -66,9 +83,10 @@ CLAIMED = {
         "Structural kernel only: for every sequence of <= 2 (3) tokens over 10 kinds, iter_chunks / iter_sentences / iter_paragraphs "
         "yield non-empty, contiguous, in-order pieces that cover the token list exactly, each piece but the last ending in its "
         "terminator and containing no other terminator. With run_on_chunk (C01) this shows pattern rules are handed one clause at a "
-        "time; the cache rebase identity is under C03.",
-        "A narrow slice of C12: every rule's own index arithmetic, whole-document linters, the condensing passes' commutation with "
-        "concatenation and the clause cache of LintGroup::lint are outside (not encodable).",
+        "time. mirsym: the same partition property from rustc's MIR for 0..=3 (4) tokens, and LintGroup::lint's clause cache kernel "
+        "(see C05): what a clause produces does not depend on where it sits or on what was linted before.",
+        "A narrow slice of C12: every rule's own index arithmetic, whole-document linters and the condensing passes' commutation "
+        "with concatenation are outside.",
         "DESIGN.md section 4, C12"),
     "C13": (
         "Two engines on the real code. Kani/CBMC: remove_overlaps on Vec<Lint> for 0..=2 lints with arbitrary spans, and "
@@ -101,8 +119,6 @@ NOT_APPLICABLE = {
     "C04": "which characters are prose is decided by tree-sitter (C, FFI), pulldown-cmark and typst-syntax; every harper-side offset "
            "kernel probed (byte_spans_to_char_spans, LiterateHaskellMasker, GitCommitParser/Unit with a stub parser, "
            "Mask::merge_whitespace_sep) ran out of memory or time under CBMC; not encodable within reach",
-    "C05": "the mechanism is an LRU keyed by foldhash of clause and configuration plus thread-locals and lazy statics; "
-           "LintGroup::empty() already reaches clock_gettime (RandomState); no solver-encodable kernel remains",
     "C06": "quantifies over the 130k-word curated dictionary (affix expansion, hashbrown, FST); SpellCheck::new builds a 10,000-entry "
            "LRU with RandomState before any decision",
     "C07": "async tokio file I/O, crash points and server commands; no file-system/async model in the engine and a hand model would "
@@ -139,7 +155,7 @@ def main():
                 "engine": "kani-cbmc",
                 "level_claimed": {"category": "model_checking", "text": text, "design_ref": ref},
                 "level_note": note,
-                "technique": TECH2 if pid in ("C13", "C02") else TECH,
+                "technique": TECH2 if pid in ("C13", "C02", "C01", "C03", "C05", "C12") else TECH,
             })
         elif pid not in na:
             na[pid] = "check not built yet (work in progress; see DESIGN.md)"
@@ -163,7 +179,7 @@ def main():
                               "classifies results, replays counterexamples natively and writes evidence",
         }, {
             "name": "mirsym", "path": "/verif/mirsym",
-            "serves_properties": ["C02", "C13"],
+            "serves_properties": ["C01", "C02", "C03", "C05", "C12", "C13"],
             "kind_free_text": "path-forking symbolic executor for rustc's textual MIR (dumped from /repo on every run with the "
                               "nightly toolchain), z3 4.x via python3-vt decides branch feasibility and post-conditions; std calls "
                               "are dispatched to hand-written contracts (models.py)",
